@@ -568,7 +568,11 @@ impl State {
                 return res;
             }
         } else if self.ctx.mode == ContextMode::MetaEval {
-            self.run()?;
+            if let Err(e) = self.run() {
+                // still inside the block: keep the context stack intact for the unwinding
+                self.nested.push(prev);
+                return Err(e);
+            }
             // purge meta context code after evaluation
             self.code.truncate(self.ctx.cs_len);
             self.debug_map.truncate(self.ctx.cs_len);
